@@ -52,6 +52,10 @@ inline bool zlib_raw_inflate(const uint8_t *in, size_t n, int wbits, std::vector
 	return rc == Z_STREAM_END && all;
 }
 
+// C15 only: also fold the compressed bytes of the dictionary jobs into the digest (the same implementation must give the same bytes cold or warm,
+// serial or threaded); C16 compares different implementations and must leave this off
+static bool g_with_bytes = false;
+
 // returns a failure description or "" ; digest receives the observable results
 inline std::string run(uint64_t seed, Digest &dg, bool light = false) {
 	char msg[512];
@@ -184,6 +188,35 @@ inline std::string run(uint64_t seed, Digest &dg, bool light = false) {
 				if (!zlib_raw_inflate(out.data(), produced, wb, zdec, n) || zdec.size() != n || memcmp(zdec.data(), d, n)) WFAIL("zlib rejects level %d mode %d stream (wrapper %d)", level, mode, gz);
 				dg.add(dec.data(), n); dg.add(st.crc);
 			}
+		// preset dictionary (the hashing helper behind it takes five arguments and is dispatched)
+		for (int level = 0; level <= 3; level++) {
+			size_t dl = n / 3, pl = n / 4; // payload = a piece of the dictionary's own content
+			struct isal_zstream s;
+			isal_deflate_init(&s);
+			s.level = level;
+			std::vector<uint8_t> lbuf2(level ? ISAL_DEF_LVL3_DEFAULT : 1);
+			if (level) { s.level_buf = lbuf2.data(); s.level_buf_size = (uint32_t) lbuf2.size(); }
+			int rc = isal_deflate_set_dict(&s, d, (uint32_t) dl);
+			if (rc != COMP_OK) WFAIL("isal_deflate_set_dict level %d rc=%d", level, rc);
+			s.end_of_stream = 1;
+			s.next_in = d + dl / 2; s.avail_in = (uint32_t) pl; s.next_out = out.data(); s.avail_out = (uint32_t) out.size();
+			rc = isal_deflate(&s);
+			if (rc != COMP_OK || s.internal_state.state != ZSTATE_END) WFAIL("isal_deflate with dictionary level %d rc=%d state %d", level, rc, (int) s.internal_state.state);
+			size_t produced = s.total_out;
+			// decodable with the same dictionary (zlib)
+			z_stream z;
+			memset(&z, 0, sizeof z);
+			inflateInit2(&z, -15);
+			inflateSetDictionary(&z, d, (uInt) dl);
+			zdec.assign(pl + 64, 0);
+			z.next_in = out.data(); z.avail_in = (uInt) produced; z.next_out = zdec.data(); z.avail_out = (uInt) zdec.size();
+			int zr = inflate(&z, Z_FINISH);
+			size_t got = z.total_out;
+			inflateEnd(&z);
+			if (zr != Z_STREAM_END || got != pl || memcmp(zdec.data(), d + dl / 2, pl)) WFAIL("zlib with the same dictionary rejects the level %d stream (rc %d, %zu of %zu bytes)", level, zr, got, pl);
+			dg.add(pl);
+			if (g_with_bytes) dg.add(out.data(), produced);
+		}
 		// custom tables from a histogram
 		struct isal_huff_histogram hist;
 		memset(&hist, 0, sizeof hist);
